@@ -14,6 +14,11 @@ open WM.Proto WM.Proto.SExp WM.Rank WM.Collect
 * `c14 postarr dc ((docs of term 0…) …)` → the order array — `postingArray`
 * `c14 results extend|filter|upgrade|upgrade-rev|upgrade-extend (((score doc)…) (docs…) total) (…)` →
   `((score doc)…) (docs, ascending) total` — `WM.Results`
+* `c14 view limit|none reverse allow|none restrict|none none|(climit hasorder) ((doc (key…) ckey|none (okey…)) …)` →
+  `ok ((doc (key…)) …) len filtered ((ckey count)…)` | `err IndexError` — `searchSorted`
+* `c14 pageview pagenum pagelen reverse allow|none restrict|none none|(climit hasorder) rows` →
+  `ok total pagecount pagenum offset pagelen (docs…)` | `err ValueError|ZeroDivisionError|LimitValueError|IndexError`
+  — `searchPageSorted`
 * `c14 postkey nvalues reverse i` / `c14 postname nvalues reverse k` — `postingKey` / `postingKeyToName`
 -/
 
@@ -25,7 +30,43 @@ def lookupD {α} (tbl : List (Nat × α)) (dflt : α) (d : Nat) : α :=
   | some p => p.2
   | none => dflt
 
+def viewRow? : SExp → Option (Nat × Key × Option Int × Key)
+  | .list [d, k, c, o] => do some (← d.nat?, ← key? k, ← opt? int? c, ← key? o)
+  | _ => none
+
+def coll? : SExp → Option (Option (Nat × Bool))
+  | .atom "none" => some none
+  | .list [cl, ho] => do some (some (← cl.nat?, ← ho.bool?))
+  | _ => none
+
+def mkView (lim : Option Nat) (rev : Bool) (al re : Option (List Nat)) (co : Option (Nat × Bool))
+    (rows : List (Nat × Key × Option Int × Key)) : View :=
+  let dflt : Key × Option Int × Key := ([], none, [])
+  { key := fun d => (lookupD rows dflt d).1, limit := lim, reverse := rev, allow := al, restrict := re,
+    collapse := co.map fun (cl, ho) =>
+      (fun d => (lookupD rows dflt d).2.1, cl, if ho then some (fun d => (lookupD rows dflt d).2.2) else none) }
+
 def handle : List SExp → String
+  | [.atom "view", lim, rev, al, re, co, rows] =>
+    match opt? nat? lim, rev.bool?, opt? natList? al, opt? natList? re, coll? co, listOf? viewRow? rows with
+    | some lim, some rev, some al, some re, some co, some rows =>
+      match searchSorted (mkView lim rev al re co rows) (rows.map (·.1)) with
+      | .error _ => "err IndexError"
+      | .ok r =>
+        let items := showList (fun (p : Key × Nat) => s!"({p.2} {showKey p.1})") r.items
+        s!"ok {items} {r.len} {r.filtered} {showList (fun (p : Int × Nat) => s!"({p.1} {p.2})") r.counts}"
+    | _, _, _, _, _, _ => "bad-op"
+  | [.atom "pageview", pn, pl, rev, al, re, co, rows] =>
+    match pn.nat?, pl.nat?, rev.bool?, opt? natList? al, opt? natList? re, coll? co, listOf? viewRow? rows with
+    | some pn, some pl, some rev, some al, some re, some co, some rows =>
+      match searchPageSorted (mkView none rev al re co rows) (rows.map (·.1)) pn pl with
+      | .error (.page .valueError) => "err ValueError"
+      | .error (.page .zeroDivisionError) => "err ZeroDivisionError"
+      | .error .limit => "err LimitValueError"
+      | .error (.collect _) => "err IndexError"
+      | .ok (p, hits) =>
+        s!"ok {p.total} {p.pagecount} {p.pagenum} {p.offset} {p.pagelen} {showNatList (hits.map (·.2))}"
+    | _, _, _, _, _, _, _ => "bad-op"
   | [.atom "sort", lim, rev, rows] =>
     let row? : SExp → Option (Nat × Key) := fun e =>
       match e with
